@@ -3,6 +3,7 @@ package main
 import (
 	"fmt"
 	"go/token"
+	"go/types"
 	"strings"
 
 	"golang.org/x/tools/go/ssa"
@@ -18,9 +19,11 @@ func init() {
 			"(R4) purge bookkeeping: the versions kept are Versions[:boundary] and the files removed are those of Versions[boundary:], the stable version is recognised by the same PreRelease flag the selection uses, keepExtra has the floor 2, purging pauses while a blacklisted version exists; " +
 			"(R5) no write to a map that is definitely nil. " +
 			"(R6) lock pairing over the functions of package(s) updater: " + lockRuleText + ". " +
+			"(R7) at most one version is the current release: every store of a non-false value to ResourceVersion.CurrentRelease is preceded on every feasible path by a complete reset loop - a range over the resource's versions that clears the flag in every iteration and has no exit but the end of the range. " +
 			"NOT decided: correctness over all version multisets, semantic-version ordering, the file-name regexes.",
 		Rules: []ruleFn{c19R1, c19R2, c19R3, c19R4, c19R5,
-			lockRuleFor("C19-R6", 20, []string{"updater"}, []string{}, map[string]string{"updater.(*RegistryState).StartOperation / s.operationLock": "StartOperation/EndOperation bracket an updater operation; EndOperation releases operationLock"})},
+			lockRuleFor("C19-R6", 20, []string{"updater"}, []string{}, map[string]string{"updater.(*RegistryState).StartOperation / s.operationLock": "StartOperation/EndOperation bracket an updater operation; EndOperation releases operationLock"}),
+			c19R7},
 	})
 }
 
@@ -416,4 +419,174 @@ func c19R5(c *Ctx, r *Report) {
 		})
 	}
 	r.OK(rule, "updater / map writes", fmt.Sprintf("%d map writes examined, none to a definitely-nil map", n))
+}
+
+// c19R7: the current-release flag is unique.
+func c19R7(c *Ctx, r *Report) {
+	const rule = "C19-R7"
+	r.SetFloor(rule, 2)
+	const owner = "updater.ResourceVersion"
+	sets := 0
+	for _, site := range c.StoresTo(owner, "CurrentRelease") {
+		st := site.Instr.(*ssa.Store)
+		if b, isC := constBool(st.Val); isC && !b {
+			continue
+		}
+		sets++
+		fn := site.Fn
+		cons := fmt.Sprintf("%s / CurrentRelease set", fnKey(fn))
+		// complete reset loops of fn
+		type loop struct {
+			header *ssa.BasicBlock
+			done   *ssa.BasicBlock
+		}
+		var loops []loop
+		for _, h := range fn.Blocks {
+			// a range loop over the version list: go/ssa lowers ranges over slices to an index loop
+			if len(h.Instrs) == 0 || len(h.Succs) != 2 {
+				continue
+			}
+			ifi, ok := h.Instrs[len(h.Instrs)-1].(*ssa.If)
+			if !ok {
+				continue
+			}
+			overVersions := false
+			if h.Comment == "rangeindex.loop" {
+				if bo, ok := ifi.Cond.(*ssa.BinOp); ok && bo.Op == token.LSS {
+					if ln, ok := bo.Y.(*ssa.Call); ok && calleeName(&ln.Call) == "builtin.len" && strings.HasSuffix(vpath(ln.Call.Args[0]), ".Versions") {
+						overVersions = true
+					}
+				}
+			}
+			if !overVersions {
+				continue
+			}
+			first := h.Instrs[0]
+			body, done := h.Succs[0], h.Succs[1]
+			// loop set: reachable from body without passing the header, and able to reach the header
+			fwd := map[*ssa.BasicBlock]bool{}
+			var dfs func(b *ssa.BasicBlock)
+			dfs = func(b *ssa.BasicBlock) {
+				if b == h || fwd[b] {
+					return
+				}
+				fwd[b] = true
+				for _, s := range b.Succs {
+					dfs(s)
+				}
+			}
+			dfs(body)
+			reaches := map[*ssa.BasicBlock]bool{h: true}
+			for changed := true; changed; {
+				changed = false
+				for b := range fwd {
+					if reaches[b] {
+						continue
+					}
+					for _, s := range b.Succs {
+						if reaches[s] {
+							reaches[b] = true
+							changed = true
+						}
+					}
+				}
+			}
+			complete := true
+			for b := range fwd {
+				if !reaches[b] {
+					complete = false // a block inside the iteration that never returns to the header: break/return
+				}
+			}
+			// the flag is cleared in every iteration
+			isClear := func(x ssa.Instruction) bool {
+				s2, ok := x.(*ssa.Store)
+				if !ok {
+					return false
+				}
+				fr, ok := fieldOfAddr(s2.Addr)
+				if !ok || fr.Owner != owner || fr.Name != "CurrentRelease" {
+					return false
+				}
+				b, isC := constBool(s2.Val)
+				return isC && !b
+			}
+			isNext := func(x ssa.Instruction) bool { return x == first }
+			if reachFromBlockStart(fn, body, isNext, nil, isClear) != nil {
+				complete = false
+			}
+			if complete {
+				loops = append(loops, loop{h, done})
+			}
+		}
+		// search: entry -> store, avoiding the done edge of a complete reset loop and edges on which a bool parameter the stored value depends on is false
+		// parameters the store is conditional on (the store is reachable only where they are true)
+		controlling := map[*ssa.Parameter]bool{}
+		for _, p := range fn.Params {
+			p := p
+			if bt, ok := p.Type().Underlying().(*types.Basic); !ok || bt.Kind() != types.Bool {
+				continue
+			}
+			g := Guard{Name: p.Name(), Truthy: true, Match: func(b ssa.Value) bool { return b == ssa.Value(p) }}
+			if ReachAvoiding(fn, nil, st.Block(), []Guard{g}) == nil {
+				controlling[p] = true
+			}
+		}
+		isFalseParamEdge := func(b *ssa.BasicBlock, si int) bool {
+			ifi, ok := b.Instrs[len(b.Instrs)-1].(*ssa.If)
+			if !ok {
+				return false
+			}
+			base, pos := peel(ifi.Cond)
+			par, isParam := base.(*ssa.Parameter)
+			if !isParam || !controlling[par] {
+				return false
+			}
+			// edge si==0 is taken when cond is true, i.e. base == pos
+			baseTrue := (si == 0) == pos
+			return !baseTrue
+		}
+		seen := map[*ssa.BasicBlock]bool{fn.Blocks[0]: true}
+		queue := []*ssa.BasicBlock{fn.Blocks[0]}
+		prev := map[*ssa.BasicBlock]*ssa.BasicBlock{}
+		var hit *ssa.BasicBlock
+		for len(queue) > 0 && hit == nil {
+			b := queue[0]
+			queue = queue[1:]
+			if b == st.Block() {
+				hit = b
+				break
+			}
+			for si, s := range b.Succs {
+				skip := false
+				for _, l := range loops {
+					if b == l.header && s == l.done && si == 1 {
+						skip = true
+					}
+				}
+				if len(b.Succs) == 2 && isFalseParamEdge(b, si) {
+					skip = true
+				}
+				if skip || seen[s] {
+					continue
+				}
+				seen[s] = true
+				prev[s] = b
+				queue = append(queue, s)
+			}
+		}
+		var path []*ssa.BasicBlock
+		for x := hit; x != nil; x = prev[x] {
+			path = append([]*ssa.BasicBlock{x}, path...)
+		}
+		r.Check(hit == nil, rule, cons+" only after all versions were reset",
+			fmt.Sprintf("preceded by a complete reset loop (%d found) on every path on which the flag parameters are true", len(loops)),
+			"a version can be marked current release without the flag having been cleared on every other version (reset loop missing, conditional, or left early): two versions carry the flag and the newer stale one is selected", append([]string{c.Pos(st.Pos())}, c.pathString(path)...)...)
+	}
+	if sets == 0 {
+		r.Undecided(rule, owner+".CurrentRelease", "the flag is never set")
+	}
+	// the flag is only written in AddVersion (who-may-write)
+	for _, site := range c.StoresTo(owner, "CurrentRelease") {
+		r.Check(fnKey(site.Fn) == "updater.(*Resource).AddVersion", rule, fnKey(site.Fn)+" / writes CurrentRelease", "written by AddVersion only", "CurrentRelease is written outside AddVersion", c.Pos(site.Instr.Pos()))
+	}
 }
